@@ -144,3 +144,93 @@ def end_of_life_runs_reverse_flagged_last_in_reverse_order(
     if e0 and e1 and e2 and r0 and r2 and not r1 and mask == 0:
         cover("first-also-last")
         assert [t[1] for t in trace] == ["b", "c", "a"]
+
+
+# ----------------------------------------------------------------------------- tight coupling
+class Coupler:
+    """stand-in for interfaces.TightCoupler: whether interface k has converged after iteration n is an ARBITRARY
+    boolean pat[n] (symbolic list); counts store/isConverged calls"""
+
+    parameter = "power"
+    eps = 0.0
+
+    def storePreviousIterationValue(self, val):
+        self.stored = self.stored + 1
+
+    def isConverged(self, val):
+        r = self.pat[self.asked]
+        self.asked = self.asked + 1
+        return r
+
+
+class CRec(Rec):
+    def getTightCouplingValue(self):
+        return 1.0
+
+
+class DbRec(Rec):
+    """stand-in for the database interface (its name is what _performTightCoupling looks up)"""
+
+    def writeDBEveryNode(self):
+        self.trace.append(("DBWRITE",))
+
+
+def no_report(summary):
+    """contract of reportingUtils.writeTightCouplingConvergenceSummary: logging only"""
+    return None
+
+
+def coupled_operator(trace, pats, en, cap, skip):
+    ifs = [new(CRec, name=NAMES[k], _enabled=en[k], _bolForce=False, reverseAtEOL=False, trace=trace, halts=False,
+               coupler=(None if pats[k] is None else new(Coupler, pat=pats[k], asked=0, stored=0))) for k in range(3)]
+    ifs.append(new(DbRec, name="database", _enabled=True, _bolForce=False, reverseAtEOL=False, trace=trace, halts=False, coupler=None))
+    o = operator(ifs)
+    o.cs["tightCoupling"] = True
+    o.cs["tightCouplingMaxNumIters"] = cap
+    o.cs["cyclesSkipTightCouplingInteraction"] = skip
+    return o
+
+
+@lemma(gen={"cap": (1, 4), "cycle": (0, 3), "node": (0, 3)},
+       stubs={"armi.bookkeeping.report.reportingUtils:writeTightCouplingConvergenceSummary": "no_report"})
+def coupling_iterates_until_all_converged_or_cap(cap: int, cycle: int, node: int, e0: bool, e2: bool):
+    """cap enumerated 1..4; two couplers (interfaces a and c; b has none) with arbitrary convergence patterns;
+    a, c enabled or not (a disabled coupler does not take part)"""
+    cap = choose(cap, 1, 4)
+    pa = sym_list("bool", "pa", maxlen=6)
+    pc = sym_list("bool", "pc", maxlen=6)
+    assume(len(pa) >= cap and len(pc) >= cap)
+    trace = []
+    o = coupled_operator(trace, (pa, None, pc), (e0, True, e2), cap, [7])
+    assume(cycle != 7)
+    o._performTightCoupling(cycle, node)
+    # the property: iterate until every (active) coupler has converged, at most cap times
+    n = 0
+    done = False
+    want = []
+    while n < cap and not done:
+        want = want + [("Coupled", NAMES[k], n) for k in range(3) if (e0, True, e2)[k]] + [("Coupled", "database", n)]
+        done = (not e0 or pa[n]) and (not e2 or pc[n])
+        n = n + 1
+    want.append(("DBWRITE",))
+    assert trace == want, "Coupled hooks of the enabled interfaces, in stack order, once per iteration, iterations 0..n-1; then one DB write"
+    assert o.r.core.p.coupledIteration == n, "the reactor carries the iteration count"
+    for k in (0, 2):
+        c = o.interfaces[k].coupler
+        assert c.asked == (n if (e0, True, e2)[k] else 0) and c.stored == c.asked, "previous value stored and convergence asked once per iteration"
+
+
+@lemma(gen={"cap": (1, 4), "cycle": (0, 3), "node": (0, 3)},
+       stubs={"armi.bookkeeping.report.reportingUtils:writeTightCouplingConvergenceSummary": "no_report"})
+def exempt_cycle_has_no_coupling_iterations(cap: int, cycle: int, node: int, other: int):
+    cap = choose(cap, 1, 3)
+    assume(other != cycle)
+    pa = sym_list("bool", "pa", maxlen=6)
+    assume(len(pa) >= cap)
+    trace = []
+    o = coupled_operator(trace, (pa, None, None), (True, True, True), cap, [other, cycle])
+    o._performTightCoupling(cycle, node)
+    assert trace == [("DBWRITE",)], "exempt cycle: no Coupled call, the node is still written"
+    o.cs["tightCoupling"] = False
+    o._performTightCoupling(cycle, node)
+    assert trace == [("DBWRITE",)], "coupling off: nothing happens here (the database interface writes in its own hook)"
